@@ -131,6 +131,15 @@ class TrX(pyz.Tr):
             return "((%s, %s), (%s, %s))" % tuple(parts), "P4"
         if isinstance(e, ast.Name) and e.id not in env and e.id in self.cfg.get("consts", {}):
             return self.cfg["consts"][e.id]
+        if isinstance(e, ast.Name) and e.id not in env and self.mod is not None:
+            # a module-level constant (bound once, to a tuple / list of literals): its value
+            hits = [n for n in ast.walk(self.mod) if isinstance(n, ast.Name)
+                    and isinstance(n.ctx, ast.Store) and n.id == e.id]
+            defs = [n for n in self.mod.body if isinstance(n, ast.Assign) and len(n.targets) == 1
+                    and isinstance(n.targets[0], ast.Name) and n.targets[0].id == e.id]
+            if len(hits) == 1 and len(defs) == 1 and isinstance(defs[0].value, (ast.Tuple, ast.List)) \
+                    and all(isinstance(x, ast.Constant) for x in defs[0].value.elts):
+                return self.expr(ast.Tuple(elts=defs[0].value.elts, ctx=ast.Load()), env)
         if isinstance(e, ast.Attribute):
             u = ast.unparse(e)
             if u in env:
@@ -241,6 +250,18 @@ class TrX(pyz.Tr):
                 return "(ix_equals %s %s)" % (a, b), "B"
             if callee in self.gens and callee not in self.calls:
                 return self.gencall(self.gens[callee], e, env)
+            if callee == "getattr" and len(e.args) == 3 and not e.keywords \
+                    and isinstance(e.args[0], ast.Name) and e.args[0].id != "self" \
+                    and isinstance(e.args[1], ast.Constant) and isinstance(e.args[1].value, str) \
+                    and "getattr" not in env:
+                # getattr(x, "a", d)  ==  x.a if hasattr(x, "a") else d
+                x = e.args[0]
+                alt = ast.IfExp(
+                    test=ast.Call(func=ast.Name(id="hasattr", ctx=ast.Load()),
+                                  args=[copy_node(x), e.args[1]], keywords=[]),
+                    body=ast.Attribute(value=copy_node(x), attr=e.args[1].value, ctx=ast.Load()),
+                    orelse=e.args[2])
+                return self.expr(ast.fix_missing_locations(ast.copy_location(alt, e)), env)
         return super().expr(e, env)
 
     def gencall(self, g, e, env):
@@ -409,6 +430,33 @@ class TrX(pyz.Tr):
                     body, bty = self.lift(body, bty)
                 return "(match %s with Err => Err | Ok _ => %s end)" % (t, body), bty
             raise Unsupported("expression statement of type " + ty)
+        if isinstance(s, ast.Assign) and len(s.targets) == 1 and isinstance(s.targets[0], ast.Tuple) \
+                and len(s.targets[0].elts) == 2 and isinstance(s.value, ast.Name) \
+                and sum(isinstance(x, ast.Starred) for x in s.targets[0].elts) == 1 \
+                and all(isinstance(x.value if isinstance(x, ast.Starred) else x, ast.Name)
+                        for x in s.targets[0].elts):
+            # `*init, last = xs` / `first, *rest = xs`: the slices `xs[:-1]`, `xs[-1]` / `xs[0]`,
+            # `xs[1:]` (same fidelity as those: the empty sequence is excluded before, or not modelled)
+            a, b = s.targets[0].elts
+            src = s.value
+
+            def sub(lo, hi=None, index=None):
+                sl = ast.Constant(value=index) if index is not None else ast.Slice(
+                    lower=None if lo is None else ast.Constant(value=lo),
+                    upper=None if hi is None else ast.UnaryOp(op=ast.USub(), operand=ast.Constant(value=-hi)))
+                if index is not None and index < 0:
+                    sl = ast.UnaryOp(op=ast.USub(), operand=ast.Constant(value=-index))
+                return ast.Subscript(value=copy_node(src), slice=sl, ctx=ast.Load())
+            if isinstance(a, ast.Starred):
+                new = [ast.Assign(targets=[ast.Name(id=a.value.id, ctx=ast.Store())], value=sub(None, -1)),
+                       ast.Assign(targets=[ast.Name(id=b.id, ctx=ast.Store())], value=sub(None, index=-1))]
+            else:
+                new = [ast.Assign(targets=[ast.Name(id=a.id, ctx=ast.Store())], value=sub(None, index=0)),
+                       ast.Assign(targets=[ast.Name(id=b.value.id, ctx=ast.Store())], value=sub(1, None))]
+            for n in new:
+                ast.copy_location(n, s)
+                ast.fix_missing_locations(n)
+            return self.block(new + list(rest), env)
         if isinstance(s, ast.Assign) and len(s.targets) == 1:
             tg = s.targets[0]
             # names, estimators = zip(*self.steps)
@@ -534,6 +582,11 @@ class TrX(pyz.Tr):
 # ---- primitive call handlers -----------------------------------------------------------------------
 
 
+def copy_node(n):
+    import copy
+    return copy.deepcopy(n)
+
+
 def h_isinstance(tr, e, env):
     if len(e.args) != 2 or e.keywords:
         raise Unsupported("isinstance arity")
@@ -647,27 +700,37 @@ def h_callable(tr, e, env):
     raise Unsupported("callable shape")
 
 
-def h_any(tr, e, env):
-    if len(e.args) == 1 and isinstance(e.args[0], ast.GeneratorExp):
-        g = e.args[0]
-        if len(g.generators) == 1 and not g.generators[0].ifs \
-                and isinstance(g.generators[0].target, ast.Name):
-            src, sty = tr.expr(g.generators[0].iter, env)
-            if sty == "NL" and ast.unparse(g.elt) == "'__' in %s" % g.generators[0].target.id:
-                return "(existsb has_dunder %s)" % src, "B"
-            tr.need(sty, "MKL", e)
-            x = cname(g.generators[0].target.id)
-            env2 = dict(env)
-            env2[g.generators[0].target.id] = (x, "MK")
-            t, ty = tr.expr(g.elt, env2)
-            tr.need(ty, "B", e)
-            return "(existsb (fun %s => %s) %s)" % (x, t, src), "B"
-    raise Unsupported("any(...) shape")
+def _quantifier(name, coq):
+    """any(<test of x> for x in <list>) / all(..): existsb / forallb over the list (generator
+    expression or list comprehension, any loop variable; the test may call private predicates)."""
+    def h(tr, e, env):
+        if len(e.args) == 1 and not e.keywords \
+                and isinstance(e.args[0], (ast.GeneratorExp, ast.ListComp)):
+            g = e.args[0]
+            if len(g.generators) == 1 and not g.generators[0].ifs \
+                    and isinstance(g.generators[0].target, ast.Name):
+                v = g.generators[0].target.id
+                src, sty = tr.expr(g.generators[0].iter, env)
+                if sty == "NL" and ast.unparse(g.elt) == "'__' in %s" % v:
+                    return "(%s has_dunder %s)" % (coq, src), "B"
+                tr.need(sty, "MKL", e)
+                x = cname(v)
+                env2 = dict(env)
+                env2[v] = (x, "MK")
+                t, ty = tr.expr(g.elt, env2)
+                tr.need(ty, "B", e)
+                return "(%s (fun %s => %s) %s)" % (coq, x, t, src), "B"
+        raise Unsupported("%s(...) shape" % name)
+    return h
+
+
+h_any = _quantifier("any", "existsb")
+h_all = _quantifier("all", "forallb")
 
 
 BASE_CALLS = {
     "isinstance": h_isinstance, "len": h_len, "tuple": h_tuple, "pd.Index": h_pd_index,
-    "np.all": h_np_all, "hasattr": h_hasattr, "callable": h_callable, "any": h_any,
+    "np.all": h_np_all, "hasattr": h_hasattr, "callable": h_callable, "any": h_any, "all": h_all,
 }
 
 
